@@ -451,7 +451,10 @@ impl IoLoop {
                 ConnectionState::ServerClosing(_)
                 | ConnectionState::ClientException
                 | ConnectionState::ClientClosed => {
-                    unreachable!("ch0 slot cannot be readable after it is dropped")
+                    // The connection was closed earlier in this same batch of events and
+                    // the channel 0 slot is already gone; this is the still-pending
+                    // readable event of a request that raced with the close. Its sender
+                    // sees the dropped slot and gets an error.
                 }
             },
             ALLOC_CHANNEL => match &state {
@@ -461,7 +464,10 @@ impl IoLoop {
                 ConnectionState::ServerClosing(_)
                 | ConnectionState::ClientException
                 | ConnectionState::ClientClosed => {
-                    unreachable!("ch0 slot cannot be readable after it is dropped")
+                    // The connection was closed earlier in this same batch of events and
+                    // the channel 0 slot is already gone; this is the still-pending
+                    // readable event of a request that raced with the close. Its sender
+                    // sees the dropped slot and gets an error.
                 }
             },
             Token(0) => match &state {
@@ -471,7 +477,10 @@ impl IoLoop {
                 ConnectionState::ServerClosing(_)
                 | ConnectionState::ClientException
                 | ConnectionState::ClientClosed => {
-                    unreachable!("ch0 slot cannot be readable after it is dropped")
+                    // The connection was closed earlier in this same batch of events and
+                    // the channel 0 slot is already gone; this is the still-pending
+                    // readable event of a request that raced with the close. Its sender
+                    // sees the dropped slot and gets an error.
                 }
             },
             Token(n) if n <= u16::max_value() as usize => {
